@@ -24,7 +24,7 @@ from harness.gnpy_util import EX, TD, REPO, equipment
 from harness import workbook_util as wu
 
 ROOT = Path(__file__).resolve().parent.parent.parent
-QUICK_VALID = 190
+QUICK_VALID = 150
 
 
 class Bench:
@@ -184,7 +184,7 @@ def run(chk):
         if c['kinds'] and id(c) not in spelled_ids:
             by_kind.setdefault('+'.join(sorted(c['kinds'])), []).append(c)
     special = [c for c in cases if c['wb']['services'] or c['inconsistent']]
-    special += rng.sample(spelled, min(60, len(spelled)))         # other spellings of the site types
+    special += rng.sample(spelled, min(48, len(spelled)))         # other spellings of the site types
     for k in sorted(by_kind):                    # quick: every mutated workbook; of the kind that also arises
         cap = 12 if len(by_kind[k]) > 40 else len(by_kind[k])      # naturally in the product (two rows on an ILA) 12
         special += rng.sample(by_kind[k], cap)
